@@ -64,6 +64,13 @@ func H_C15_keys(t *verifrt.T) {
 		key = t.Bytes("key", k)
 	}
 	doc := append([]byte(`{"`), key...)
+	if t.Param("TRUNC") == 1 {
+		// the input ends inside the key: only safety is at stake (C06)
+		var v vkB
+		err := Unmarshal(doc, &v)
+		t.Assert("truncated-document-rejected", err != nil)
+		return
+	}
 	doc = append(doc, `":7}`...)
 	lit := append(append([]byte{'"'}, key...), '"')
 	tok := verifref.StringLiteral(lit)
